@@ -48,9 +48,14 @@ def check_crop(o):
     res = o["res"]
     lo, hi = res["lo"], res["hi"]
     sl = tuple(slice(a, b) for a, b in zip(lo, hi))
-    combos = [("Image", "float64"), ("Image", "uint8"), ("MaskedImage", "float32"), ("BooleanImage", "float64")]
+    # ("float64+inf": non-finite but legal float pixels - a crop copies pixels, it does not interpret them)
+    combos = [("Image", "float64"), ("Image", "uint8"), ("MaskedImage", "float32"), ("BooleanImage", "float64"), ("Image", "float64+inf")]
     for cls, dt in combos:
-        img = make_image(cls, sh, 2, dt, "sparse")
+        img = make_image(cls, sh, 2, dt.split("+")[0], "sparse")
+        if dt.endswith("+inf"):
+            flat = img.pixels.reshape(-1)
+            flat[1::5] = np.inf
+            flat[3::7] = -np.inf
         s0 = state(img)
         tag = "%s(%s)" % (cls, dt)
         try:
